@@ -40,7 +40,7 @@ CHECKS = {
    "Trusted: the element->annotation table; Default ignored, Preformat checked for presence only; row-group colours are a known finding.",
    "property-based testing (proptest) against a reference model derived from an independent oracle DOM"),
  "C10": ("exploration",
-   "Stateful generation: a history of <=6 renders (route x width) is interpreted against one render tree built once and cloned per render; every result is compared with a fresh one-shot rendering (differential oracle), plus determinism and route/free-function agreement.",
+   "Stateful generation: a history of <=6 renders (route x width) is interpreted against one render tree built once and cloned per render (also with CSS style attributes), and one parsed DOM is converted several times with different configurations and rendered with configurations that differ in render-time options; every result is compared with a fresh one-shot rendering (differential oracle), plus determinism and route/free-function agreement.",
    "Trusted: string_from_read as the reference route; identity colour map.",
    "property-based testing (proptest; operation histories vs fresh one-shot rendering, differential)"),
  "C11": ("exploration",
@@ -53,7 +53,7 @@ CHECKS = {
    "property-based testing (proptest) against a reference model of preformatted layout"),
  "C14": ("exploration",
    "Generated documents with unique ids on random elements: from the oracle DOM and the linearised element stream of the line output, every id with visible text has exactly one marker, ordered after all preceding text and before the element's own text within its scope (table cell or document), on the element's line when the element starts mid-line; string output identical with ids removed; 40% of cases at widths 1..8 to force hard wrapping.",
-   "Trusted: identifying characters; scope = innermost table cell; ids on elements without visible text are outside the claim; two placement classes are known findings.",
+   "Trusted: identifying characters; scope = innermost table cell; ids on elements without visible text are outside the claim; an id on a table / row whose first cell is skipped is a known finding; white space, zero-width text or decoration between marker and first character makes the same-line clause inapplicable (counted).",
    "property-based testing (proptest; event-stream oracle from an independent oracle DOM, plus a metamorphic id-removal relation)"),
  "C15": ("exploration",
    "Metamorphic relations between render(d,w,base) and render(d,w,base+o) for each of nine options (identity when the option does not apply; width bound beyond the prefix for max_wrap_width; right-trim equality for padding; U+0336 deletion for strikeout; no box characters and same text for no_table_borders/raw_mode; no [k] and same text for link_footnotes(false); same body and unbroken entries for no_link_wrapping; same text and only `*`/backquote added for do_decorate).",
